@@ -37,7 +37,7 @@ FN_SUFFIX = ("sum", "mean", "min", "max", "count", "stdev")
 
 def vec(rng, n, name):
 	vals = [rng.choice([1, 2, 3, 4, None]) if rng.random() < 0.5 else rng.choice([1, 2, 3]) for _ in range(n)]
-	if all(x is None for x in vals):
+	if vals and all(x is None for x in vals):
 		vals[0] = 1
 	return Vector(vals, name=name) if name is not None else Vector(vals)
 
@@ -78,7 +78,7 @@ def run_chain(chk, spec):
 		if depth and not check_held():
 			return
 		held = [(x, x.name) for x in vectors] + [(t, t.column_names()) for t in tables]
-		kind = rng.choice(["vv", "vkeep", "ts", "tt", "build", "tkeep", "join", "vv-date", "tattr"])
+		kind = rng.choice(["vv", "vkeep", "ts", "tt", "build", "tkeep", "join", "vv-date", "tattr", "rename-derived", "gather"])
 		if kind == "vv":
 			a, b = rng.choice(vectors), rng.choice(vectors)
 			opn = rng.choice(["add", "sub", "mul", "truediv", "eq", "lt", "ne", "ge", "radd-list-none", "add-incompatible", "sub-incompatible", "mul-decimal"])
@@ -119,6 +119,43 @@ def run_chain(chk, spec):
 				return
 			if d.name is not None and (d.name, days.name) != (d.name, days.name):
 				pass
+		elif kind == "rename-derived":
+			# a table derived from another is renamed: the other (held) keeps its names - checked by the held-names rule at the next step / at the end
+			t0 = rng.choice(tables)
+			how = rng.choice(["copy", "rshift-vector", "Table(cols)", "rowslice", "select-all"])
+			d = call({"copy": lambda: t0.copy(), "rshift-vector": lambda: t0 >> vec(rng, len(t0), "extra"), "Table(cols)": lambda: Table(list(t0.cols())), "rowslice": lambda: t0[0:len(t0)],
+				"select-all": lambda: t0[tuple(nm for nm in t0.column_names() if isinstance(nm, str))] if all(isinstance(nm, str) and nm for nm in t0.column_names()) else t0.copy()}[how])
+			trace.append(f"rename-derived {how}")
+			chk.judged("table-op", ("rename-derived", how, len(t0) == 0, depth))
+			if not d.ok or not isinstance(d.value, Table) or not d.value.cols():
+				continue
+			dt = d.value
+			nm0 = dt.column_names()[0]
+			if isinstance(nm0, str) and nm0 and rng.random() < 0.5:
+				call(dt.rename_column, nm0, "renamed_in_copy")
+			else:
+				call(lambda: setattr(dt.cols()[0], "name", "renamed_in_copy"))
+			tables.append(dt)
+		elif kind == "gather":
+			# rows gathered by an index VECTOR (also on long tables: library fast paths by size): a selection like any other
+			big = rng.random() < 0.15
+			t0 = Table([Vector(list(range(1200)), name=nm) for nm in rng.choice(tables).column_names()[:2]]) if big else rng.choice(tables)
+			m = len(t0)
+			if m == 0 or not t0.cols():
+				continue
+			idx = Vector([rng.randrange(m) for _ in range(rng.choice([1, 2, 3]))])
+			names0 = t0.column_names()
+			o = call(lambda: t0[idx])
+			v0 = t0.cols()[0]
+			ov = call(lambda: v0[idx])
+			chk.judged("table-op", ("gather", big, tuple(ncls(x) for x in names0), depth))
+			trace.append(f"gather on {names0!r} big={big}")
+			if o.ok and isinstance(o.value, Table) and len(o.value) and o.value.column_names() != names0:
+				fail_names(chk, "table/gather" + ("-long" if big else ""), f"{trace}", o.value.column_names(), names0, "filtered, sliced and sorted tables keep each column's stored name in order")
+				return
+			if ov.ok and isinstance(ov.value, Vector) and len(ov.value) and ov.value.name != v0.name:
+				fail_names(chk, "vector/gather" + ("-long" if big else "") + "/name-not-kept", f"{trace}", ov.value.name, v0.name, "copy, slicing, masking, sorting keep a vector's name")
+				return
 		elif kind == "tattr":
 			# replacing a column through its accessor is an in-place write: every stored name stays (an unnamed column stays unnamed)
 			from . import pool as _pool
@@ -350,6 +387,16 @@ def san_alts(name, fn):
 
 
 def run_agg_names(chk, spec):
+	t_pre = common.mk_table(spec["table"])
+	ext = [common.resolve_ref(t_pre, r) for r in spec["over"]]
+	ext_names = [(x, x.name) for x in ext if isinstance(x, Vector)]
+	names_pre = t_pre.column_names()
+	over = ext if not (spec.get("scalar_over") and len(ext) == 1) else ext[0]
+	pre = call(lambda: getattr(t_pre, spec["op"])(over, count_over=[t_pre.cols()[-1]]))
+	if t_pre.column_names() != names_pre or any(x.name != nm for x, nm in ext_names):
+		chk.fail("aggregate / window name their OUTPUTS; the table and the key vectors they read keep their stored names", f"names/{spec['op']}/operand-renamed",
+			f"{spec!r}: table names {names_pre!r} -> {t_pre.column_names()!r}; key vector names {[nm for _, nm in ext_names]!r} -> {[x.name for x, _ in ext_names]!r}")
+		return
 	o, t = common.do_agg(spec)
 	op = spec["op"]
 	keynames = [common.ref_name(r) for r in spec["over"]]
@@ -407,7 +454,7 @@ def gen_agg_names_spec(rng):
 	n = rng.choice([1, 2, 4])
 	nkeys = rng.choice([1, 1, 2, 3])
 	names, cols, over = [], [], []
-	keypool = ["k", "k", "g", "v_sum", "Total $", "sum", None, "v", "k2", "Customer ID", "Unit-Price"]
+	keypool = ["k", "k", "g", "v_sum", "Total $", "sum", None, None, "v", "k2", "Customer ID", "Unit-Price"]
 	spellings = {"Customer ID": "customer_id", "Unit-Price": "unit_price"}
 	for i in range(nkeys):
 		nm = rng.choice(keypool)
@@ -461,7 +508,7 @@ def run(chk):
 	recompute.add_cases(chk, "C18")
 	rng = chk.rng
 	for _ in range(900 if chk.quick() else 6000):
-		chk.case("chain", {"seed": rng.randrange(10**9), "n": rng.choice([1, 2, 3, 4]), "depth": rng.choice([1, 2, 3, 4])}, "chain")
+		chk.case("chain", {"seed": rng.randrange(10**9), "n": rng.choice([1, 2, 3, 4, 0]), "depth": rng.choice([1, 2, 3, 4])}, "chain")
 	import itertools
 	for labels in list(itertools.permutations(["1", "True", "1.0"], 2)) + list(itertools.permutations(["2023", "2023.0"], 2)) + list(itertools.permutations(["0", "False", "0.0"], 3)) + [("1",), ("True",), ("1.0",)]:
 		for op in ("aggregate", "window"):
